@@ -71,6 +71,23 @@ func ZZVerifC12ScopeAppend() {
 	if nd.Bool("child") {
 		scp = NewChild(scp, ChildParams{Name: "c"})
 	}
+	// optionally a listener of one of the close events brings one more error
+	// while the scope is being closed - by returning it or by appending it
+	lev := nd.Choose("listener-event", 6) // 0 none
+	fired := false
+	if lev > 0 {
+		ev := []int{0, app.BeforeCloseEvent, app.CommitEvent, app.AfterCommitEvent, app.RollbackEvent, app.AfterCloseEvent}[lev]
+		byAppend := nd.Bool("listener-appends")
+		target := scp
+		scp.On(ev, func(interface{}) error {
+			fired = true
+			if byAppend {
+				target.AppendError(errors.New("l"))
+				return nil
+			}
+			return errors.New("l")
+		})
+	}
 	var want []error
 	calls := 1 + nd.Choose("calls", 2)
 	for c := 0; c < calls; c++ {
@@ -94,5 +111,50 @@ func ZZVerifC12ScopeAppend() {
 	nd.Assert(scp.IsDone() == (len(want) > 0), "C12/scope-append-done-iff-error")
 	nd.Assert((scp.Err() != nil) == (len(want) > 0), "C12/scope-append-err-iff-error")
 	nd.Assert((scp.Wait() != nil) == (len(want) > 0), "C12/scope-append-wait-reports")
+	// closing reports every error the scope retains at the end, also one that
+	// arrived during the close phases
+	cerr := scp.Close()
+	nd.Assert((cerr != nil) == (len(want) > 0 || fired), "C12/scope-close-reports-retained-errors")
+	nd.Assert(len(scp.Errors()) == len(want)+zzB2i(fired), "C12/scope-close-retains-errors")
+	if lev == 1 || lev == 5 {
+		nd.Assert(fired, "C12/scope-close-fires-listener")
+	}
 	nd.Reach("C12/scope-append-end")
+}
+
+// ZZVerifC12Independent: "any number of goroutines at once" also means that
+// goroutines which do not share a scope at all do not disturb each other:
+// two goroutines each create their own unnamed root scope (and a child of
+// it), append an error or not, and close both - no panic, no data race on
+// state shared behind the scenes (identifier generators), each scope reports
+// exactly its own error.
+func ZZVerifC12Independent() {
+	nd.Schedule(nd.Param("IP", 1))
+	nd.Races()
+	var got [2]bool
+	fail := [2]bool{nd.Bool("fail0"), nd.Bool("fail1")}
+	var wg sync.WaitGroup
+	for i := 0; i < 2; i++ {
+		wg.Add(1)
+		go func(i int) {
+			defer wg.Done()
+			s := New(Params{})
+			c := NewChild(s, ChildParams{})
+			if fail[i] {
+				c.AppendError(errors.New("e"))
+			}
+			c.Close()
+			got[i] = s.Close() != nil
+		}(i)
+	}
+	wg.Wait()
+	nd.Assert(got[0] == fail[0] && got[1] == fail[1], "C12/independent-each-scope-reports-its-own-error")
+	nd.Reach("C12/independent-end")
+}
+
+func zzB2i(b bool) int {
+	if b {
+		return 1
+	}
+	return 0
 }
